@@ -13,14 +13,11 @@ fn any_frame() -> Http2Frame {
 fn ty(f: &Http2Frame) -> u8 {
     match f.frame_type { Http2FrameType::Priority => 2, Http2FrameType::Settings => 4, Http2FrameType::WindowUpdate => 8, _ => 6 }
 }
-#[kani::proof]
-#[kani::unwind(8)]
-fn c17_window_update_selection() {
-    let frames = vec![any_frame(), any_frame(), any_frame()];
+fn check_window_update(frames: Vec<Http2Frame>) {
     // the first connection-level (stream 0) WINDOW_UPDATE decides, whatever precedes it on other streams
     let mut expect: u32 = 0;
     let mut i = 0;
-    while i < 3 {
+    while i < frames.len() {
         if ty(&frames[i]) == 8 && frames[i].stream_id == 0 {
             let p = &frames[i].payload;
             expect = u32::from_be_bytes([p[0] & 0x7f, p[1], p[2], p[3]]);
@@ -30,14 +27,11 @@ fn c17_window_update_selection() {
     }
     assert!(extract_window_update(&frames) == expect);
 }
-#[kani::proof]
-#[kani::unwind(8)]
-fn c17_settings_selection() {
-    let frames = vec![any_frame(), any_frame(), any_frame()];
+fn check_settings(frames: Vec<Http2Frame>) {
     let got = extract_settings_parameters(&frames);
     let mut i = 0;
     let mut found = false;
-    while i < 3 {
+    while i < frames.len() {
         if ty(&frames[i]) == 4 && frames[i].stream_id == 0 {
             let p = &frames[i].payload;
             assert!(got.len() == 1);
@@ -50,14 +44,11 @@ fn c17_settings_selection() {
     }
     if !found { assert!(got.is_empty()); }
 }
-#[kani::proof]
-#[kani::unwind(8)]
-fn c17_priority_selection() {
-    let frames = vec![any_frame(), any_frame(), any_frame()];
+fn check_priority(frames: Vec<Http2Frame>) {
     let got = extract_priority_frames(&frames);
     let mut n = 0;
     let mut i = 0;
-    while i < 3 {
+    while i < frames.len() {
         if ty(&frames[i]) == 2 {
             assert!(n < got.len());
             let p = &frames[i].payload;
@@ -70,6 +61,25 @@ fn c17_priority_selection() {
     }
     assert!(got.len() == n);
 }
+
+#[kani::proof]
+#[kani::unwind(8)]
+fn c17_window_update_selection() { check_window_update(vec![any_frame(), any_frame()]); }
+#[kani::proof]
+#[kani::unwind(8)]
+fn c17_settings_selection() { check_settings(vec![any_frame(), any_frame()]); }
+#[kani::proof]
+#[kani::unwind(8)]
+fn c17_priority_selection() { check_priority(vec![any_frame(), any_frame()]); }
+#[kani::proof]
+#[kani::unwind(8)]
+fn c17_window_update_selection_3() { check_window_update(vec![any_frame(), any_frame(), any_frame()]); }
+#[kani::proof]
+#[kani::unwind(8)]
+fn c17_settings_selection_3() { check_settings(vec![any_frame(), any_frame(), any_frame()]); }
+#[kani::proof]
+#[kani::unwind(8)]
+fn c17_priority_selection_3() { check_priority(vec![any_frame(), any_frame(), any_frame()]); }
 
 // ---- payload decoders, bounded cross-check (unbounded proof: Verus unit c17_payloads): every length 0..12
 #[kani::proof]
